@@ -229,6 +229,23 @@ pub fn run(ctx: &Ctx) -> Report {
       }
     }
   }
+  // ---- a reader that stalls: the pipe fills, the command is suspended and resumed while blocked writing (a short write);
+  // what finally arrives is still the whole script
+  if ctx.replay.is_none() {
+    for (sh, _) in SHELLS {
+      let sb = Sandbox::new(&ctx.work, "c19s");
+      let Some((o, stalled)) = crate::run::stalled_run(&sb.root, &ctx.imdl, &["completions", "--shell", sh], &sb.path("stderr.txt"), None) else {
+        report.hit("skipped:no-stall-helper");
+        break;
+      };
+      let case = json!({"stdout_reader_stalls_command_suspended_and_resumed": true, "shell": sh});
+      report.case(Some(fnv_str(&case.to_string())));
+      report.hit(if stalled { "print:into-a-stalled-pipe" } else { "print:into-a-stalled-pipe-but-it-fitted" });
+      if o.code != Some(0) || o.stdout != printed[sh] {
+        report.fail("property", "completions-dispatch", case, format!("into a pipe whose reader stalls `--shell {sh}` delivers {} bytes (exit {:?}); the script is {} bytes", o.stdout.len(), o.code, printed[sh].len()));
+      }
+    }
+  }
   // ---- the same dispatch under other spellings of the directory and other states of the world
   let only: Option<Vec<String>> = super::replay_cases(ctx).map(|rc| rc.iter().filter_map(|v| v.get("scenario").and_then(|s| s.as_str()).map(|s| s.to_string())).collect());
   for (label, dir_arg, lands_in) in [
